@@ -781,6 +781,7 @@ impl Engine for E3 {
         // large queue: panic / stall on the first metrics, then a burst that must fit exactly
         let mut burst_plan: Vec<SinkOutcome> = Vec::new();
         let mut backlog_burst = false;
+        let mut panic_storm: Option<(usize, usize)> = None;
         if big_cap.is_none() && (cap.is_none() || cap == Some(8)) && matches!(focus, "C08" | "C11" | "C09" | "C15" | "C16") && cfg.chance(1, 40) {
             // a long backlog behind a stalled worker (a worker that batches shows only here)
             let n = 70 + cfg.below(80) as u32;
@@ -788,6 +789,11 @@ impl Engine for E3 {
             next_id += n;
             burst_plan = vec![if n_gates > 0 { SinkOutcome::Stall(0) } else { SinkOutcome::Slow(3) }];
             backlog_burst = true;
+            // half of the long backlogs: a panic storm — 9 … 65 consecutive panics with accepted
+            // metrics queued behind them (a worker that gives up after a run of panics, agent10-C09)
+            if cfg.chance(1, 2) {
+                panic_storm = Some((1 + cfg.usize_below(4), *cfg.pick(&[9usize, 17, 33, 65])));
+            }
         }
         if let Some(bc) = big_cap {
             let n = bc as u32 + 2;
@@ -843,6 +849,11 @@ impl Engine for E3 {
                 if matches!(o, SinkOutcome::Stall(_)) {
                     *o = SinkOutcome::Ok;
                 }
+            }
+        }
+        if let Some((at, len)) = panic_storm {
+            for o in plan.iter_mut().skip(at).take(len) {
+                *o = SinkOutcome::Panic;
             }
         }
         let sampler = match focus {
@@ -1084,6 +1095,7 @@ fn judge(case: &QCase, main: &Option<Obs>, end_tasks: &[TaskInfo], out: &mut Out
     let mut panics_fired = 0u64;
     let mut sink_drops = 0;
     let mut prev_outcome: Option<SinkOutcome> = None;
+    let mut panic_streak = 0u32;
     for e in &obs.log {
         match e {
             Ev::SinkEnter { k, s, task, .. } => {
@@ -1105,6 +1117,10 @@ fn judge(case: &QCase, main: &Option<Obs>, end_tasks: &[TaskInfo], out: &mut Out
                         out.fired("wrapped_sink_panic");
                         panics_fired += 1;
                         out.probe("panic_fired");
+                        panic_streak = if prev_outcome == Some(SinkOutcome::Panic) { panic_streak + 1 } else { 1 };
+                        if panic_streak == 17 {
+                            out.probe("panic_storm_17_in_a_row");
+                        }
                         if prev_outcome == Some(SinkOutcome::Panic) {
                             out.probe("consecutive_panics");
                         }
